@@ -303,7 +303,27 @@ func runProperty(P *Prog, prop, tier string, seed int, verif, outDir string) *pr
 	scratch, _ := os.MkdirTemp("", "govc-"+prop+"-")
 	defer os.RemoveAll(scratch)
 	cfg := runCfg{dir: scratch, timeout: timeout, seed: seed, order: order, workers: runtime.NumCPU(), keep: false}
-	dischargeAll(obls, cfg)
+	// obligations recorded as known findings are expected to fail: do not spend the full timeout on them
+	{
+		var rest, kf []*Obligation
+		for _, o := range obls {
+			isKF := false
+			for _, f := range findings {
+				if f.kind == "finding" && f.prop == prop && f.obligation == o.Name {
+					isKF = true
+				}
+			}
+			if isKF {
+				kf = append(kf, o)
+			} else {
+				rest = append(rest, o)
+			}
+		}
+		if len(kf) > 0 {
+			dischargeAll(kf, runCfg{dir: scratch + "/kf", timeout: 3, seed: seed, order: []string{"z3-new"}, workers: runtime.NumCPU()})
+		}
+		dischargeAll(rest, cfg)
+	}
 	// vacuity (smoke) checks of the same units: a refuted smoke check means contradictory assumptions
 	var smokes []*Obligation
 	for _, u := range units {
@@ -452,7 +472,7 @@ func runProperty(P *Prog, prop, tier string, seed int, verif, outDir string) *pr
 		assumptions = append(assumptions, "note: "+n)
 	}
 	cov := map[string]any{
-		"obligations": res.total, "discharged": res.discharged,
+		"obligations": res.total - res.known, "discharged": res.discharged, "obligations_recorded_as_known_findings": res.known,
 		"checker_cmd":  fmt.Sprintf("govc check -prop %s -tier %s (SSA->SMT-LIB; solvers raced in order %v, timeout %ds each)", prop, tier, order, timeout),
 		"trusted_base": tb, "functions_under_contract": fnames, "by_backend": byBackend, "solver_s": solverS, "slowest": slow,
 		"samples": samples, "known_findings_matched": knownMatched, "bounded": []any{},
